@@ -223,8 +223,10 @@ impl TokenType {
             | Int(_) | Ident(_) | Hex(_) => 1,
             // a comment in the last line has no line break yet, so it grows with the text
             Comment(_) => 1,
+            // a single `'` is unknown, but starts a character literal as soon as something follows
+            Unknown(_) => 1,
             LParen | RParen | LBracket | RBracket | LCurly | RCurly | Eq | Neq | Le | Ge
-            | Assign | Comma | Semic | Plus | Minus | Times | Unknown(_) | Eof => 0,
+            | Assign | Comma | Semic | Plus | Minus | Times | Eof => 0,
             Char(_) => {
                 1 // this is a worst case look ahead.
             }
